@@ -1,4 +1,5 @@
 import PymocaVerif.Lemmas.CacheMeta
+import PymocaVerif.Lemmas.CacheState
 /-!
 # C19 — cached and code-generated models equal fresh compiles
 
@@ -90,6 +91,58 @@ theorem duration_roundtrip (nan : V) (raw : List ((Nat → V) → V)) (dds : Lis
   rw [loadDurations_eq]
   exact zipMask_ok nan raw dds _ hdep (maskSets_sound (unionOf dds) dds _ (mem_unionOf dds))
 
+/-- Dependency classification of `save_model` (`NOT_MX / MX_DEPENDENT / MX_INDEPENDENT`) on
+    attribute expressions: an `MX` attribute is `MX_DEPENDENT` exactly when a parameter symbol
+    occurs in one of its elements, a plain value is `NOT_MX`. -/
+theorem classification_of_exprs {P : Type} (es : List PExpr) :
+    classify (Attr.ofExprs (P := P) es) = (if es.any PExpr.hasParam then Dep.dependent else Dep.independent) := by
+  unfold Attr.ofExprs classify
+  cases es.any PExpr.hasParam <;> rfl
+
+/-- Soundness of the classification: an attribute classified `MX_INDEPENDENT` has the same
+    element values at every parameter vector — also at the all-NaN vector `load_model`
+    evaluates it at (NaN is absorbing in `PExpr.eval`, so this is not trivial for `0 * p`:
+    such an expression *is* classified dependent). This is `AttrWF`, the hypothesis of
+    `attr_roundtrip`, proved for every expression-built attribute. -/
+theorem independent_classification_sound {P : Type} (es : List PExpr)
+    (hc : classify (Attr.ofExprs (P := P) es) = Dep.independent) (env nanEnv : Nat → Option Int) :
+    es.map (PExpr.eval env) = es.map (PExpr.eval nanEnv) := by
+  rw [classification_of_exprs] at hc
+  have hno : es.any PExpr.hasParam = false := by
+    cases h : es.any PExpr.hasParam
+    · rfl
+    · rw [h] at hc; cases hc
+  apply List.map_congr_left
+  intro e he
+  have : e.hasParam = false := by
+    cases h : e.hasParam
+    · rfl
+    · have : es.any PExpr.hasParam = true := List.any_eq_true.mpr ⟨e, he, h⟩
+      rw [hno] at this; cases this
+  exact PExpr.eval_indep e this env nanEnv
+
+theorem ofExprs_wf {P : Type} (es : List PExpr) (nanEnv : Nat → Option Int) :
+    AttrWF nanEnv (Attr.ofExprs (P := P) es) := by
+  unfold Attr.ofExprs
+  cases h : es.any PExpr.hasParam
+  · intro env
+    have hc : classify (Attr.ofExprs (P := P) es) = Dep.independent := by
+      rw [classification_of_exprs, h]; rfl
+    exact independent_classification_sound es hc env nanEnv
+  · trivial
+
+/-- Round trip without any hypothesis on CasADi for expression-built attributes: whichever
+    way the attribute is classified, the loaded value at every parameter vector is the
+    original's. -/
+theorem expr_attr_roundtrip {P : Type} (nA : Nat) (embed : P → List (Option Int)) (nanEnv : Nat → Option Int)
+    (vars : List (Var P (Nat → Option Int) (Option Int))) (i : Nat) (hi : i < vars.length) (j : Nat) (hj : j < nA)
+    (es : List PExpr) (hattr : vars[i].attrs j = Attr.ofExprs es) :
+    ∃ (h : i < (loadCat nanEnv (saveCat nA embed vars)).length) (g : (Nat → Option Int) → List (Option Int)),
+      ((loadCat nanEnv (saveCat nA embed vars))[i]).attrs j = .mx g ∧
+      ∀ env, g env = broadcast vars[i].numel (es.map (PExpr.eval env)) := by
+  have hwf : AttrWF nanEnv (vars[i].attrs j) := by rw [hattr]; exact ofExprs_wf es nanEnv
+  exact attr_roundtrip nA embed nanEnv vars i hi j hj _ _ hattr hwf
+
 section examples
 /-- `Real v[2](each min = p); Real y(min = q, max = 2*q); Real z(max = p + q)` — the shape of
     DESIGN §6 row 17: an array variable in front of scalars with parameter-dependent bounds.
@@ -114,6 +167,52 @@ example : maskSets (unionOf [[5], [6], [5, 6]]) (unionOf [[5], [6], [5, 6]]).len
     = [some [5], some [5, 6], some [5, 6]] := by decide
 example : All2 (DependsOnly (V := Int)) [fun env => env 5, fun env => env 6 + 1] [[5], [6]] :=
   All2.cons (fun _ _ h => h 5 (by simp)) (All2.cons (fun _ _ h => by simp [h 6 (by simp)]) All2.nil)
+-- classification examples: `2*p0 + 1` dependent; `3 - 1` independent; `0 * p0` dependent (and NaN at NaN)
+example : classify (Attr.ofExprs (P := Unit) [.add (.mul (.const 2) (.param 0)) (.const 1)]) = Dep.dependent := by decide
+example : classify (Attr.ofExprs (P := Unit) [.sub (.const 3) (.const 1)]) = Dep.independent := by decide
+example : (PExpr.mul (.const 0) (.param 0)).eval (fun _ => none) = none := by decide
 end examples
 
 end PymocaVerif.CacheMeta
+
+namespace PymocaVerif.CacheState
+
+variable {M : Type}
+
+/-- Option comparison of `load_model`: a model is served from the cache only if the stored
+    option set equals the current one in every key — `mtime_check`, `cache`, `codegen`,
+    `expand_mx` and the whole rest (every other key with its value, default or not) — except
+    the excluded `library_folders`; and the stored version is the current one, the file is
+    complete and no source is newer. -/
+theorem served_only_for_equal_options (cfg : Cfg M) (w : World M) (o : Opts) (m : M)
+    (h : load cfg w o = .hit m) :
+    ∃ c, w.cache = some c ∧ m = c.db.model ∧ c.complete = true ∧ c.db.version = w.version ∧
+      c.db.opts.mtimeCheck = o.mtimeCheck ∧ c.db.opts.cache = o.cache ∧ c.db.opts.codegen = o.codegen ∧
+      c.db.opts.expandMx = o.expandMx ∧ c.db.opts.rest = o.rest ∧
+      (cfg.exclLibs = false → c.db.opts.libs = o.libs) := by
+  obtain ⟨c, hc, _, hcomp, hv, hopts, hm⟩ := load_hit h
+  refine ⟨c, hc, hm, hcomp, hv, ?_⟩
+  simp only [optsMatch, Bool.and_eq_true, Bool.or_eq_true, beq_iff_eq] at hopts
+  obtain ⟨⟨⟨⟨⟨h1, h2⟩, h3⟩, h4⟩, h5⟩, h6⟩ := hopts
+  refine ⟨h2, h3, h4, h5, h6, ?_⟩
+  intro hex
+  cases h1 with
+  | inl h => rw [hex] at h; cases h
+  | inr h => exact h
+
+/-- Contrapositive, for one key of the rest (e.g. `detect_aliases`, or a key that is not among
+    the defaults such as `iterative_simplification`): a different value, or the key being
+    present on one side only, is never a hit. -/
+theorem differing_option_is_never_served (cfg : Cfg M) (w : World M) (o : Opts) (c : CacheFile M)
+    (hc : w.cache = some c) (hdiff : c.db.opts.rest ≠ o.rest) : ∀ m, load cfg w o ≠ .hit m := by
+  intro m h
+  obtain ⟨c', hc', _, _, _, _, _, _, _, hrest, _⟩ := served_only_for_equal_options cfg w o m h
+  rw [hc] at hc'
+  cases hc'
+  exact hdiff hrest
+
+-- satisfiable: the same options with and without a non-default key differ in `rest`
+example : ([("detect_aliases", "False")] : List (String × String)) ≠
+    [("detect_aliases", "False"), ("iterative_simplification", "True")] := by decide
+
+end PymocaVerif.CacheState
